@@ -80,6 +80,8 @@ fn main() {
     let (level, out) = match prop.as_str() {
         "C01" => ("fault_enumeration", props::c01::run(&ctx)),
         "C02" => ("fault_enumeration", props::c02::run(&ctx)),
+        "C03" => ("fault_enumeration", props::c03::run(&ctx)),
+        "C08" => ("fault_enumeration", props::c08::run(&ctx)),
         "C09" => ("model_checking", exhaust::seqnr::run(&ctx)),
         "C11" => ("model_checking", exhaust::wire::run(&ctx)),
         "C15" => ("model_checking", exhaust::cubic::run(&ctx)),
